@@ -492,7 +492,7 @@ theorem exitAndPop_pinv (p : α → Bool) (L : List α) (s : State α) (c : Curs
   simp only [fire_h, ha, apply_continue, hh.2, Bool.false_eq_true, ite_false]
   simp only [PInv, fire_ret, hret, fire_log, enters_append, enters, List.append_nil]
   refine ⟨?_, hL, hg⟩
-  simp [Handler.fresh, hh.1, hh.2]
+  simp [Handler.fresh, hh.1]
 
 theorem descend_pinv (p : α → Bool) (L : List α) (s : State α) (c : Cursor α) (rest : List (Cursor α))
     (hret : s.ret = none) (hh : s.h = Handler.fresh) (hlt : c.idx < c.branches.length)
@@ -644,6 +644,162 @@ theorem generic_byLabel (p : α → Bool) (t : Tree α) (hg : (t.prune p).good =
   simp only [PInv, hr] at h1
   rw [hr, h1.1]
   exact ⟨rfl, h1.2⟩
+
+/-! ### a nil branch outside the consumed subtrees is reported -/
+
+/-- invariant of a walk with `byLabel p` over a tree whose pruned form contains a nil branch -/
+def NInv (p : α → Bool) (s : State α) : Prop :=
+  match s.ret with
+  | none => s.h = Handler.fresh ∧ goodSt p s.stack = false
+  | some r => r = .cursorError
+
+theorem exitAndPop_ninv (p : α → Bool) (s : State α) (c : Cursor α) (rest : List (Cursor α))
+    (hret : s.ret = none) (hh : s.h.done = false ∧ s.h.err = false) (hg : goodSt p rest = false) :
+    NInv p (exitAndPop (byLabel p) s c rest) := by
+  unfold exitAndPop
+  have ha : byLabel p (s.log ++ [Ev.exit c.node]) = .continue := by rw [byLabel_snoc]
+  simp only [fire_h, ha, apply_continue, hh.2, Bool.false_eq_true, ite_false]
+  simp only [NInv, fire_ret, hret]
+  exact ⟨by simp [Handler.fresh, hh.1], hg⟩
+
+theorem descend_ninv (p : α → Bool) (s : State α) (c : Cursor α) (rest : List (Cursor α))
+    (hret : s.ret = none) (hh : s.h = Handler.fresh) (hlt : c.idx < c.branches.length)
+    (hg : (goodL (pruneL p (c.branches.drop c.idx)) && goodSt p rest) = false) :
+    NInv p (descend s c rest) := by
+  have hdrop : c.branches.drop c.idx = c.branches.getD c.idx Tree.bad :: c.branches.drop (c.idx + 1) := by
+    rw [List.drop_eq_getElem_cons hlt]; simp [List.getD_eq_getElem?_getD, hlt]
+  rw [hdrop] at hg
+  unfold descend
+  cases hb : c.branches.getD c.idx Tree.bad with
+  | bad => simp [construct, NInv, halt]
+  | node l kids =>
+    rw [hb] at hg
+    simp only [construct, NInv, hret]
+    refine ⟨hh, ?_⟩
+    simp only [goodSt, goodC, Nat.add_one_ne_zero, ite_true, ite_false]
+    simpa [pruneL, goodL, Bool.and_assoc] using hg
+
+theorem iter_ninv (p : α → Bool) (s : State α) (c : Cursor α) (rest : List (Cursor α))
+    (hret : s.ret = none) (hh : s.h = Handler.fresh) (hg : (goodC p c && goodSt p rest) = false) :
+    NInv p (iter (byLabel p) s c rest) := by
+  unfold iter
+  by_cases h0 : c.idx = 0
+  · have hb : (c.idx == 0) = true := by simp [h0]
+    simp only [hb, ite_true, Bool.true_and, Bool.not_true, Bool.false_eq_true, ite_false]
+    have ha := byLabel_snoc p s.log (Ev.enter c.node)
+    simp only at ha
+    generalize hs1 : fire (byLabel p) s (Ev.enter c.node) = s1
+    have h1h : s1.h = s.h.apply (byLabel p (s.log ++ [Ev.enter c.node])) := by rw [← hs1]; rfl
+    have h1r : s1.ret = none := by rw [← hs1]; exact hret
+    rw [ha, hh] at h1h
+    by_cases hp : p c.node = true
+    · simp only [hp, ite_true, apply_consume] at h1h
+      have e1 : s1.h.err = false := by rw [h1h]; rfl
+      have e2 : s1.h.done = false := by rw [h1h]; rfl
+      have e3 : s1.h.consumed = true := by rw [h1h]
+      simp only [e1, e2, e3, Bool.false_eq_true, ite_false, ite_true]
+      have hgc : goodC p c = true := by simp [goodC, h0, Tree.prune, hp, Tree.good, goodL]
+      have hg' : goodSt p rest = false := by simpa [hgc] using hg
+      split
+      · exact exitAndPop_ninv p s1 c rest h1r ⟨e2, e1⟩ hg'
+      · exact exitAndPop_ninv p _ c rest (by simpa using h1r) ⟨by simpa using e2, by simpa using e1⟩ hg'
+    · have hp' : p c.node = false := by simpa using hp
+      simp only [hp', Bool.false_eq_true, ite_false, apply_continue] at h1h
+      have e1 : s1.h.err = false := by rw [h1h]; rfl
+      have e2 : s1.h.done = false := by rw [h1h]; rfl
+      have e3 : s1.h.consumed = false := by rw [h1h]; rfl
+      simp only [e1, e2, e3, Bool.false_eq_true, ite_false]
+      have hgc : goodC p c = goodL (pruneL p c.branches) := by simp [goodC, h0, Tree.prune, hp', Tree.good]
+      rw [hgc] at hg
+      split
+      · rename_i hlt
+        have hnil : c.branches = [] := by
+          have : c.branches.length ≤ 0 := by simpa [h0] using hlt
+          exact List.eq_nil_of_length_eq_zero (by omega)
+        rw [hnil] at hg
+        exact exitAndPop_ninv p s1 c rest h1r ⟨e2, e1⟩ (by simpa [pruneL, goodL] using hg)
+      · rename_i hlt
+        have hlt' : c.idx < c.branches.length := by simpa using hlt
+        exact descend_ninv p _ c rest (by simpa using h1r) (by simp [h1h, Handler.fresh]) hlt'
+          (by rw [h0]; simpa using hg)
+  · have hb : (c.idx == 0) = false := by simp [h0]
+    have hcons : s.h.consumed = false := by rw [hh]; rfl
+    simp only [hb, Bool.false_eq_true, ite_false, Bool.false_and, Bool.not_false, ite_true, hcons]
+    have hgc : goodC p c = goodL (pruneL p (c.branches.drop c.idx)) := by simp [goodC, h0]
+    rw [hgc] at hg
+    split
+    · rename_i hlt
+      have hle : c.branches.length ≤ c.idx := by simpa using hlt
+      rw [List.drop_eq_nil_of_le hle] at hg
+      exact exitAndPop_ninv p s c rest hret ⟨by rw [hh]; rfl, by rw [hh]; rfl⟩
+        (by simpa [pruneL, goodL] using hg)
+    · rename_i hlt
+      have hlt' : c.idx < c.branches.length := by simpa using hlt
+      have ha := byLabel_snoc p s.log (Ev.visit c.node)
+      simp only at ha
+      generalize hs3 : fire (byLabel p) (clearConsumed s) (Ev.visit c.node) = s3
+      have h3h : s3.h = ({ s.h with consumed := false } : Handler).apply (byLabel p (s.log ++ [Ev.visit c.node])) := by
+        rw [← hs3]; rfl
+      have h3r : s3.ret = none := by rw [← hs3]; exact hret
+      rw [ha, hh] at h3h
+      simp only [apply_continue] at h3h
+      have e1 : s3.h.err = false := by rw [h3h]; rfl
+      have e2 : s3.h.done = false := by rw [h3h]; rfl
+      have e3 : s3.h.consumed = false := by rw [h3h]
+      simp only [e1, e2, e3, Bool.false_eq_true, ite_false]
+      exact descend_ninv p _ c rest (by simpa using h3r) (by simp [h3h, Handler.fresh]) hlt' hg
+
+theorem step_ninv (p : α → Bool) (s : State α) (h : NInv p s) : NInv p (step (byLabel p) s) := by
+  unfold step
+  cases hret : s.ret with
+  | some r => simpa [NInv, hret] using h
+  | none =>
+    simp only [NInv, hret] at h
+    obtain ⟨hh, hg⟩ := h
+    simp only
+    cases hst : s.stack with
+    | nil => rw [hst] at hg; simp [goodSt] at hg
+    | cons c rest =>
+      rw [hst] at hg
+      have hd : s.h.done = false := by rw [hh]; rfl
+      simp only [hd, Bool.false_eq_true, ite_false]
+      exact iter_ninv p s c rest hret hh (by simpa [goodSt] using hg)
+
+theorem steps_ninv (p : α → Bool) (n : Nat) (s : State α) (h : NInv p s) : NInv p (steps (byLabel p) n s) := by
+  induction n generalizing s with
+  | zero => exact h
+  | succ n ih => exact ih _ (step_ninv p s h)
+
+/-- if a nil branch remains after pruning, the walk returns the cursor constructor's error -/
+theorem generic_byLabel_bad (p : α → Bool) (t : Tree α) (hg : (t.prune p).good = false) :
+    (generic (byLabel p) t).ret = some .cursorError := by
+  have h0 : NInv p (start t) := by
+    cases t with
+    | bad => simp [start, construct, NInv]
+    | node l kids =>
+      simp only [start, construct, NInv]
+      exact ⟨by first | rfl | trivial, by simpa [goodSt, goodC] using hg⟩
+  have h1 := steps_ninv p (fuel t) _ h0
+  obtain ⟨r, hr⟩ := Option.isSome_iff_exists.1 (generic_terminates (byLabel p) t)
+  unfold generic at hr ⊢
+  simp only [NInv, hr] at h1
+  rw [hr, h1]
+
+mutual
+theorem prune_false (t : Tree α) : t.prune (fun _ => false) = t := by
+  cases t with
+  | bad => rfl
+  | node l kids => simp [Tree.prune, pruneL_false kids]
+theorem pruneL_false (ts : List (Tree α)) : pruneL (fun _ => false) ts = ts := by
+  cases ts with
+  | nil => rfl
+  | cons t ts => simp [pruneL, prune_false t, pruneL_false ts]
+end
+
+theorem byLabel_false : byLabel (fun _ : α => false) = (fun _ => Act.continue) := by
+  funext hist
+  unfold byLabel
+  split <;> simp
 
 /-! ### consequences of monitor acceptance, in index form -/
 
